@@ -22,6 +22,7 @@ var commands = map[string]func(args map[string]string){
 	"buffer":   cmdBuffer,
 	"channel":  cmdChannel,
 	"notifier": cmdNotifier,
+	"callable": cmdCallable,
 }
 
 // usage: harness <driver> -k v -k v ...
